@@ -337,3 +337,41 @@ func MonRecoveryCatchUp(propName string) *Mon {
 		},
 	}
 }
+
+// ---- the fault bound in use (C06) ------------------------------------------------------
+
+// MonC06 checks, in every state a world reaches, that the thresholds the library applies are those of the
+// current validator count: F and M themselves, and the "more than F validators committed or lost" test that
+// decides whether a node which has asked for a view change may still finish the old view (with exactly F
+// committed or lost the other N-F = M validators can still change view, so it may not).
+func MonC06() *Mon {
+	return &Mon{Name: "C06",
+		AfterCall: func(n *Node, c *Call) {
+			d := n.D
+			if d == nil || d.Validators == nil || n.Crashed {
+				return
+			}
+			N := len(d.Validators)
+			F := refF(N)
+			if d.F() != F || d.M() != N-F || d.N() != N {
+				n.W.Fail("C06", fmt.Sprintf("node %d: N()=%d F()=%d M()=%d with %d validators", n.ID, d.N(), d.F(), d.M(), N), "quorum-arithmetic")
+			}
+			sum := d.CountCommitted() + d.CountFailed()
+			if sum == F && F > 0 {
+				n.W.Stat("c06_exactly_f_committed_or_lost")
+				if d.ViewChanging() {
+					n.W.Stat("c06_exactly_f_while_view_changing")
+				}
+			}
+			if got := d.MoreThanFNodesCommittedOrLost(); got != (sum > F) {
+				n.W.Fail("C06", fmt.Sprintf("node %d at (%d,%d): %d validators committed or lost, F=%d, yet MoreThanFNodesCommittedOrLost()=%v", n.ID, d.BlockIndex, d.ViewNumber, sum, F, got), "more-than-f-threshold")
+			}
+			if got := d.NotAcceptingPayloadsDueToViewChanging(); got != (d.ViewChanging() && sum <= F) {
+				n.W.Fail("C06", fmt.Sprintf("node %d at (%d,%d): view changing=%v, %d committed or lost, F=%d, yet NotAcceptingPayloadsDueToViewChanging()=%v", n.ID, d.BlockIndex, d.ViewNumber, d.ViewChanging(), sum, F, got), "more-than-f-threshold")
+			}
+			if int(d.PrimaryIndex) != refPrimary(d.BlockIndex, d.ViewNumber, N) {
+				n.W.Fail("C06", fmt.Sprintf("node %d at (%d,%d): PrimaryIndex=%d with %d validators", n.ID, d.BlockIndex, d.ViewNumber, d.PrimaryIndex, N), "primary-index-field")
+			}
+		},
+	}
+}
